@@ -154,6 +154,9 @@ enum Sib {
     PkgDeep(&'static str),
     /// sub-element of a mixed-content element (L-4): TT / E / SUB ...
     Inline(&'static str),
+    /// APPLICATION-ENTRY (LIN schedule table entry) with INTRODUCTION, DELAY, POSITION-IN-TABLE: DELAY has one position in
+    /// version 4.0.1 and another one, after INTRODUCTION, in all later versions
+    AppEntry(&'static str),
 }
 
 fn sib_id(s: &Sib) -> String {
@@ -247,6 +250,14 @@ fn build_sib(b: &mut B, c: usize, k: usize, s: &Sib) {
             b.named(iel, "UNIT", "k2");
             b.named(iel, "UNIT", "k1");
         }
+        Sib::AppEntry(position) => {
+            let e = b.sub(c, "APPLICATION-ENTRY");
+            b.sub(e, "INTRODUCTION");
+            let d = b.sub(e, "DELAY");
+            b.op(Op::SetCData(d, Val::F(0x3ff0000000000000)));
+            let p = b.sub(e, "POSITION-IN-TABLE");
+            b.text(p, position);
+        }
         Sib::Inline(kind) => {
             let e = b.sub(c, kind);
             b.op(Op::InsertCItem(e, b"t".to_vec(), 0));
@@ -285,6 +296,17 @@ fn build_container(b: &mut B, fam: &str) -> usize {
             let el = b.elements();
             let s = b.named(el, "SYSTEM", "sys");
             b.sub(s, "FIBEX-ELEMENTS")
+        }
+        "verorder" => {
+            let el = b.elements();
+            let c = b.named(el, "LIN-CLUSTER", "c");
+            let v = b.sub(c, "LIN-CLUSTER-VARIANTS");
+            let cc = b.sub(v, "LIN-CLUSTER-CONDITIONAL");
+            let pc = b.sub(cc, "PHYSICAL-CHANNELS");
+            let ch = b.named(pc, "LIN-PHYSICAL-CHANNEL", "ch");
+            let st = b.sub(ch, "SCHEDULE-TABLES");
+            let t = b.named(st, "LIN-SCHEDULE-TABLE", "t");
+            b.sub(t, "TABLE-ENTRYS")
         }
         "mixed" => {
             let pk = b.packages();
@@ -342,6 +364,7 @@ fn families(tier: &str) -> Vec<(&'static str, Vec<Vec<Sib>>)> {
         vec![PkgDeep("w2"), PkgDeep("w10")],
     ]));
     v.push(("mixed", vec![vec![Inline("TT"), Inline("E"), Inline("SUB")]]));
+    v.push(("verorder", vec![vec![AppEntry("2"), AppEntry("1")]]));
     if thorough {
         v.push(("bag", vec![vec![Elem("SYSTEM-SIGNAL", "a2"), Elem("I-SIGNAL", "a10"), Elem("SYSTEM-SIGNAL", "a1b"), Elem("UNIT", "a2x"), Elem("I-SIGNAL", "a1b")]]));
         v.push(("index", vec![vec![Ecuc("Aaa", Some("06"), Some("/d/c")), Ecuc("Bbb", Some("5"), Some("/d/c")), Ecuc("Ccc", Some("0X4"), Some("/d/c")), Ecuc("Zzz", None, Some("/d/c")), Ecuc("Mmm_9", None, Some("/d/c")), Ecuc("Mmm_10", None, Some("/d/c"))]]));
@@ -482,6 +505,7 @@ fn strip_comments(t: &str) -> String {
 }
 
 struct ModelView {
+    loads: Vec<bool>,
     idents: Vec<(String, usize)>,
     refs: Vec<(String, String)>,
     broken: String,
@@ -508,14 +532,17 @@ fn view(ex: &Exec, mi: usize, roots: &[String]) -> ModelView {
     br.sort();
     let mut file_lines = vec![];
     let mut texts = vec![];
+    let mut loads = vec![];
     for f in m.files() {
         let t = f.serialize().unwrap_or_else(|e| format!("ERR {}", err_name(&e)));
+        // the model is valid: its text loads strictly into a fresh model
+        loads.push(AutosarModel::new().load_buffer(t.as_bytes(), "reload.arxml", true).is_ok());
         let mut l: Vec<String> = t.lines().map(|x| x.to_string()).collect();
         l.sort();
         file_lines.push(l);
         texts.push(t);
     }
-    ModelView { idents, refs, broken: format!("{:?}", br), file_lines, texts }
+    ModelView { loads, idents, refs, broken: format!("{:?}", br), file_lines, texts }
 }
 
 fn check_sort(ex: &mut Exec, op: &Op, k: usize, step: usize, probes: &[String], fails: &mut Vec<String>, checks: &mut u64) -> String {
@@ -586,6 +613,9 @@ fn check_sort(ex: &mut Exec, op: &Op, k: usize, step: usize, probes: &[String], 
         }
         if va.broken != vb.broken {
             fail("lookups", "check_references changed".into());
+        }
+        if va.loads.len() != vb.loads.len() || va.loads.iter().zip(vb.loads.iter()).any(|(a, b)| *b && !*a) {
+            fail("valid", "a file that loaded strictly before the sort does not load strictly after it".into());
         }
         if va.file_lines != vb.file_lines {
             fail("content", "the serialized lines are not the same multiset".into());
